@@ -23,7 +23,7 @@ SPEC = {
                    "PdModel/Spec/C05.lean", "PdModel/Driver/TsoGlobal.lean"],
     "gen": {
         "quick": {"args": ["-n", "40", "-len", "30"], "streams": 2},
-        "thorough": {"args": ["-n", "400", "-len", "50"], "streams": 8},
+        "thorough": {"args": ["-n", "400", "-len", "50", "-cluster", "25"], "streams": 8},
     },
     "search": {"args": ["-n", "80", "-len", "40"], "streams": 4},
     "nontrivial": nontrivial,
